@@ -3,6 +3,7 @@ CONSTANTS
   Mutant = "none"
   MaxOps = 1
   WithUpperCaseDesc = TRUE
+  WithNoContent = TRUE
   SmallSec = FALSE
 INVARIANTS ValidateExact ServingConsequence
 CHECK_DEADLOCK FALSE
